@@ -214,6 +214,31 @@ Fixpoint paths (v : jv) : list (list jv) :=
   | _ => []
   end.
 
+(* builtin.jq:  def recurse: recurse(.[]?);   def recurse(f): def r: ., (f | r); r;   and `..` is recurse.
+   path(..) therefore emits the current path, then, for every child (array elements by index, object
+   values in the sorted key order in which gojq iterates .[]), the paths of that child's recursion *)
+Definition pdd_arr_go (f : jv -> list (list jv)) :=
+  fix go (i : Z) (l : list jv) : list (list jv) :=
+    match l with
+    | [] => []
+    | c :: r => map (cons (JInt i)) (f c) ++ go (i + 1) r
+    end.
+Definition pdd_obj_go (f : jv -> list (list jv)) :=
+  fix go (m : list (str * jv)) : list (list jv) :=
+    match m with
+    | [] => []
+    | (k, c) :: r => map (cons (JStr k)) (f c) ++ go r
+    end.
+Fixpoint path_dotdot (v : jv) : list (list jv) :=
+  [] :: match v with
+        | JArr l => pdd_arr_go path_dotdot 0 l
+        | JObj m => pdd_obj_go path_dotdot m
+        | _ => []
+        end.
+Definition is_root (p : list jv) : bool := match p with [] => true | _ => false end.
+(* def paths: path(..) | select(. != []);   literally *)
+Definition paths_jq (v : jv) : list (list jv) := filter (fun p => negb (is_root p)) (path_dotdot v).
+
 (* ------------------------------------------------------------------ to_entries / from_entries *)
 
 Definition k_key : str := [107; 101; 121]%N.
